@@ -223,4 +223,79 @@ theorem C30_histories {K : Type} [DecidableEq K] {T : List String} {sf : Bool} (
         have := hB k hrest i (by simp [lookupIdx, hk, hi])
         exact ⟨this.1, by rw [this.2]; exact intern_monotone hp hq i (hm k i hi)⟩
 
+/-! ## The statement without the pool invariant is false; what is proved is the partial statement -/
+
+/-- C30 at full strength for one interning step, from ANY pool: the style reads back and no
+    existing index changes meaning -/
+def C30_full (T : List String) (sf : Bool) : Prop :=
+  ∀ (p q : Pool Nat Nat Nat Nat) (s : Style Nat Nat Nat Nat) (i : Int), intern T sf p s = .ok (q, i) →
+    getStyle T q i = .ok s ∧ ∀ j, (idx p.cellXfs j).isSome → getStyle T q j = getStyle T p j
+
+/-- the same under the pool invariant — proved, for both variants of get_num_fmt_index -/
+theorem C30_partial (T : List String) (sf : Bool) :
+    ∀ (p q : Pool Nat Nat Nat Nat) (s : Style Nat Nat Nat Nat) (i : Int), PoolInv T sf p →
+      intern T sf p s = .ok (q, i) →
+      getStyle T q i = .ok s ∧ ∀ j, (idx p.cellXfs j).isSome → getStyle T q j = getStyle T p j :=
+  fun _ _ _ _ hp h => ⟨intern_roundtrip hp h, fun j hj => intern_monotone hp h j hj⟩
+
+/-- a three-entry stand-in for the built-in table -/
+def exT : List String := ["general", "0", "0.00"]
+
+/-- F30a: the workbook redefines built-in id 2 (as locale-specific files do) -/
+def shadowPool : Pool Nat Nat Nat Nat :=
+  ⟨[0], [0], [0], [⟨2, "FILE-OWN"⟩], [⟨0, 0, 0, 0, 0, false, none⟩]⟩
+
+/-- F30b: xf 1 refers to custom id 3, which the workbook does not define -/
+def danglingPool : Pool Nat Nat Nat Nat :=
+  ⟨[0], [0], [0], [], [⟨0, 0, 0, 0, 0, false, none⟩, ⟨0, 3, 0, 0, 0, false, none⟩]⟩
+
+/-- F30a (pinned get_num_fmt_index): the built-in code "0.00" is stored under id 2 and reads back as
+    the workbook's own format -/
+theorem pinned_F30a_shadowed_builtin_not_read_back :
+    ∃ q i, intern exT false shadowPool ⟨none, "0.00", 0, 0, 0, false⟩ = .ok (q, i) ∧
+      getStyle exT q i = .ok ⟨none, "FILE-OWN", 0, 0, 0, false⟩ :=
+  ⟨_, _, rfl, by decide⟩
+
+/-- the repaired get_num_fmt_index reads it back (the pool satisfies the invariant without `noShadow`) -/
+theorem repaired_F30a_read_back :
+    ∃ q i, intern exT true shadowPool ⟨none, "0.00", 0, 0, 0, false⟩ = .ok (q, i) ∧
+      getStyle exT q i = .ok ⟨none, "0.00", 0, 0, 0, false⟩ :=
+  ⟨_, _, rfl, by decide⟩
+
+/-- F30b (either variant): a new custom format takes the dangling id 3, and the style of xf 1
+    changes from "general" to "0.000" although nothing was assigned to it -/
+theorem F30b_dangling_id_taken_over (sf : Bool) :
+    ∃ q i, intern exT sf danglingPool ⟨none, "0.000", 0, 0, 0, false⟩ = .ok (q, i) ∧
+      getStyle exT danglingPool 1 = .ok ⟨none, "general", 0, 0, 0, false⟩ ∧
+      getStyle exT q 1 = .ok ⟨none, "0.000", 0, 0, 0, false⟩ := by
+  cases sf <;> exact ⟨_, _, rfl, by decide, by decide⟩
+
+/-- the full statement is false for the pinned code (F30a) and for the repaired code (F30b) -/
+theorem C30_full_false : ¬ C30_full exT false ∧ ¬ C30_full exT true := by
+  constructor
+  · intro h
+    have := (h shadowPool _ ⟨none, "0.00", 0, 0, 0, false⟩ _ rfl).1
+    revert this; decide
+  · intro h
+    have := (h danglingPool _ ⟨none, "0.000", 0, 0, 0, false⟩ _ rfl).2 1 (by decide)
+    revert this; decide
+
+/-! ## Non-vacuity -/
+
+/-- an imported-like pool: duplicate font, a custom format coinciding with a built-in code (id 164
+    = "0.00"), a redundant definition of built-in id 1, an xf parented to a named style -/
+def examplePool : Pool Nat Nat Nat Nat :=
+  ⟨[7, 8, 7], [0, 1], [0], [⟨164, "0.00"⟩, ⟨1, "0"⟩, ⟨165, "yyyy"⟩],
+   [⟨0, 0, 0, 0, 0, false, none⟩, ⟨0, 164, 1, 1, 0, true, some 5⟩, ⟨1, 165, 2, 0, 0, false, none⟩]⟩
+
+example : PoolInv exT false examplePool := ⟨by decide, by decide, by decide, by decide⟩
+example : exT ≠ [] := by decide
+example : ∃ q, intern exT false examplePool ⟨some 5, "0.00", 1, 8, 0, false⟩ = .ok (q, 3) ∧ q.numFmts = examplePool.numFmts :=
+  ⟨_, rfl, rfl⟩
+example : intern exT false examplePool ⟨some 5, "0.00", 1, 8, 0, true⟩ = .ok (examplePool, 1) := rfl
+example : ∃ q, intern exT true examplePool ⟨none, "mm:ss", 2, 9, 3, false⟩ = .ok (q, 3) ∧
+    q.numFmts.length = 4 ∧ q.fonts.length = 4 ∧ getStyle exT q 3 = .ok ⟨none, "mm:ss", 2, 9, 3, false⟩ :=
+  ⟨_, rfl, rfl, rfl, by decide⟩
+example : PoolInv exT true shadowPool := ⟨by decide, by decide, by decide, by intro h; cases h⟩
+
 end IronCalc.Sheet.Styles
